@@ -35,7 +35,10 @@ ASSUMPTIONS = [
     "EdgeMinimalSpanningTree has no avoid_edges parameter: admissible edges there = all edges, minus border edges when asked",
     "exclusion sets are python sets of ids; only ids of the mesh plus one absent id; sizes bounded as in coverage.bounds",
     "weights: ints / halves / integer-coordinate lengths (compared as exact squared lengths); no NaN/inf weights",
-    "build_tree_as_polyline is only compared with the parent table on meshes without a 'barycenter' attribute",
+    "C10.polyline_export (build_tree_as_polyline = the parent table drawn as a polyline, one vertex per element) is an extra "
+    "observation of the same tree through the fourth public accessor of the anchored classes; it is evaluated on the fresh mesh and "
+    "after a persistent 'barycenter' attribute exists on cells / on faces (what attributes.face_barycenter(mesh) leaves behind)",
+    "a hang inside the library is only caught by the runner's per-task watchdog",
 ]
 BOUNDS = {
     "quick": "GRAPH(n<=5): all 1099 labelled graphs as polylines; SURF: all tri+quad complexes on 3 and 4 vertices (66), all 410 "
@@ -538,7 +541,7 @@ def _ccls(excl, ab):
     return ("border+excl" if excl else "border") if ab else ("excl" if excl else "plain")
 
 
-def _weight_menu(E, tier, fam, n):
+def _weight_menu(E):
     """(label, class label, exact weight list, builder of the library argument)."""
     menu = []
     pats = {
@@ -749,7 +752,7 @@ def _check_mesh(spec, xmax, tier, fam, rep: Report):
         if info2.E != info.E:
             raise RuntimeError("edge numbering depends on the geometry")
         mst_sweep(mesh2, info2, "length(moment curve)", "w=length", info2.sqlen, lambda: "length", allroots, abs_)
-    for wlabel, wcls, w in _weight_menu(L, tier, fam, n):
+    for wlabel, wcls, w in _weight_menu(L):
         if wcls == "w=attr":
             nm = "c10_" + wlabel.replace(":", "_")
             at = mesh.edges.create_attribute(nm, float)
